@@ -12,3 +12,5 @@ for c in "$@"; do
   [ $code = 2 ] && echo "$out" | grep -E "MACHINERY|error" | head -5
 done
 git -C /repo checkout -- .
+# the runs above describe the seeded tree: put the committed evidence back and drop their replay files
+git -C /verif checkout -q -- evidence replays 2>/dev/null; git -C /verif clean -fdq replays 2>/dev/null
